@@ -22,7 +22,8 @@ class C06:
             'configuration and adds min_point_rdp queries) with: the implementation\'s chain rdp_fixed(points, k), k = 2..n; the '
             'global cost of every chain member (fresh cache); queries grdp(t), mp_grdp(t, m), min_point_rdp(ts, m) with thresholds '
             'drawn from the observed global costs (exact ties), their nextafter neighbours and a fixed grid, m in 0..n+1, threshold '
-            'lists unsorted and with duplicates; curves as in C05 (60% tie-rich); non-trivial = some query stops at 2 < k* < n; '
+            'lists unsorted and with duplicates; same-object stream: 90 (900 thorough) cases issue 3-5 configurations with pairwise different '
+            'metrics on ONE ndarray object (every other one alternating two curves written into it in place), every call judged, tables from fresh copies; curves as in C05 (60% tie-rich); non-trivial = some query stops at 2 < k* < n; '
             'distinct by (points, configuration)')
     assumptions = ['thresholds are in the property\'s domain: t > 0 (t <= 1 for R2), not NaN; min_points >= 0',
                    'shape of the distance oracle: len(distance_points(points[l:r], ...)) = r - l (checked on every table)',
@@ -51,6 +52,25 @@ class C06:
                 m, d, o = cfgs[j % len(cfgs)]
                 j += 1
             cases.append({'points': pts, 'family': fam, 'dist': d, 'order': o, 'cost': m, 'qseed': rng.randrange(1 << 30)})
+        # same-object stream: ONE ndarray object per case, a sequence of 3-5 configurations (metrics pairwise different; distance,
+        # order, thresholds, min_points vary) each queried 2-5 times; every other case alternates two curves that are written into
+        # the same buffer in place.  Every call is judged against the model; tables come from fresh copies.
+        nseq = {'quick': 90, 'search': 60, 'thorough': 900}.get(tier, 90)
+        for i in range(nseq):
+            n = rng.choice([4, 5, 6, 7, 8, 9, 10]) if tier != 'thorough' or i % 3 else rng.randint(11, 24)
+            fam, pts = any_curve(rng, n)
+            curves = [pts]
+            if i % 2:
+                curves.append(any_curve(rng, n)[1])
+            k = rng.choice([3, 4, 5])
+            ms = rng.sample(METRICS, k)
+            steps = []
+            for q, m in enumerate(ms):
+                d, o = rng.choice(DISTS), rng.choice(ORDERS)
+                if m == 'smape' and rng.random() < 0.5:
+                    d, o = DEFAULT[0], DEFAULT[1]
+                steps.append([q % len(curves), d, o, m])
+            cases.append({'kind': 'seq', 'curves': curves, 'steps': steps, 'family': fam, 'qseed': rng.randrange(1 << 30)})
         return cases
 
     def warmup(self):
@@ -61,9 +81,18 @@ class C06:
         for c in metrics.Metrics:
             rdp.grdp(p, 0.1, cost=c)
 
+    @staticmethod
+    def _plan(c):
+        if c.get('kind') == 'seq':
+            return c['curves'], [tuple(x) for x in c['steps']]
+        return [c['points']], [(0, c['dist'], c['order'], c['cost'])]
+
     def on_timeout(self, c):
         c = dict(c)
-        c.update({'chain': [], 'dt': [], 'ct': [], 'rt': [], 'gt': [], 'queries': [], 'timeout': True})
+        curves, steps = self._plan(c)
+        c['parts'] = [{'points': curves[ci], 'dist': d, 'order': o, 'cost': m, 'chain': [], 'dt': [], 'ct': [], 'rt': [], 'gt': [], 'queries': []}
+                      for ci, d, o, m in steps]
+        c['timeout'] = True
         return c
 
     def run_impl(self, c):
@@ -73,90 +102,136 @@ class C06:
         import kneeliverse.metrics as metrics
         import kneeliverse.evaluation as evaluation
         c = dict(c)
-        pts = np.array(c['points'], dtype=float)
-        n = len(pts)
-        D, O, M = rdp.Distance[c['dist']], rdp.Order[c['order']], metrics.Metrics[c['cost']]
-        chain = []
-        for k in range(2, n + 1):
-            st, out = call(rdp.rdp_fixed, pts, k, D, O)
-            o = as_out(st, out)
-            chain.append(o[0] if o is not None else [])
-        c['chain'] = chain
-        c['dt'], c['ct'], c['rt'] = build_tables(rdp, lf, pts, c['dist'], c['order'], chain, n <= NFULL)
-        gt, seen = [], set()
-        for S in chain:
-            if S and tuple(S) not in seen and all(0 <= i < n for i in S) and len(S) >= 2:
-                seen.add(tuple(S))
-                st, v = call(evaluation.compute_global_cost, pts, list(S), M)
-                if st == 'ok':
-                    gt.append([list(S), float(v)])
-        c['gt'] = gt
-        # thresholds: observed global costs (exact ties), neighbours, grid
+        curves, steps = self._plan(c)
+        seq = c.get('kind') == 'seq'
         r = random.Random(c['qseed'])
-        vals = sorted({v for _, v in gt if v == v})
-        cand = []
-        for v in vals:
-            cand += [v, math.nextafter(v, math.inf), math.nextafter(v, -math.inf)]
-        cand = [t for t in cand if in_domain(t, c['cost'])]
-        grid = [t if c['cost'] != 'r2' else 1.0 - t for t in GRID]
-        ts = []
-        for _ in range(4):
-            ts.append(r.choice(cand) if cand and r.random() < 0.8 else r.choice(grid))
-        ts = [t for t in ts if in_domain(t, c['cost'])]
-        queries = []
-        for t in ts:
-            st, out = call(rdp.grdp, pts, t, D, M, O)
-            queries.append({'q': 'grdp', 't': t, 'out': as_out(st, out)})
-            for m in r.sample(range(0, n + 2), min(3, n + 2)):
-                st, out = call(rdp.mp_grdp, pts, t, m, D, M, O)
-                queries.append({'q': 'mp', 't': t, 'm': m, 'out': as_out(st, out)})
-        if (c['dist'], c['order'], c['cost']) == DEFAULT:
-            pool = [t for t in cand + GRID if in_domain(t, 'smape')]
-            for _ in range(4):
-                k = r.randint(0, 4)
-                lst = [r.choice(pool) for _ in range(k)] if pool else []
-                if lst and r.random() < 0.5:
-                    lst.append(r.choice(lst))           # duplicate entry
-                r.shuffle(lst)                          # unsorted
-                m = r.randint(0, n + 1)
-                before = list(lst)
-                st, out = call(rdp.min_point_rdp, pts, lst, m)
-                queries.append({'q': 'min', 'ts': before, 'm': m, 'out': as_out(st, out), 'mutated_arg': lst != before})
-        c['queries'] = queries
+        parts = []
+        # 1. per (curve, configuration): chain, oracle tables and query plan from FRESH copies (a new array per call, an explicit
+        #    empty cache per global cost): nothing here can share state with the calls under test
+        for ci, d, o, m in steps:
+            n = len(curves[ci])
+            D, O, M = rdp.Distance[d], rdp.Order[o], metrics.Metrics[m]
+            chain = []
+            for k in range(2, n + 1):
+                st, out = call(rdp.rdp_fixed, np.array(curves[ci], dtype=float), k, D, O)
+                x = as_out(st, out)
+                chain.append(x[0] if x is not None else [])
+            fresh = np.array(curves[ci], dtype=float)
+            dt, ct, rt = build_tables(rdp, lf, fresh, d, o, chain, n <= NFULL and not seq)
+            gt, seen = [], set()
+            for S in chain:
+                if S and tuple(S) not in seen and all(0 <= i < n for i in S) and len(S) >= 2:
+                    seen.add(tuple(S))
+                    st, v = call(evaluation.compute_global_cost, np.array(curves[ci], dtype=float), list(S), M, {})
+                    if st == 'ok':
+                        gt.append([list(S), float(v)])
+            vals = sorted({v for _, v in gt if v == v})
+            cand = []
+            for v in vals:
+                cand += [v, math.nextafter(v, math.inf), math.nextafter(v, -math.inf)]
+            cand = [t for t in cand if in_domain(t, m)]
+            grid = [t if m != 'r2' else 1.0 - t for t in GRID]
+            ts = []
+            for _ in range(2 if seq else 4):
+                ts.append(r.choice(cand) if cand and r.random() < 0.8 else r.choice(grid))
+            ts = [t for t in ts if in_domain(t, m)]
+            plan = []
+            for t in ts:
+                plan.append({'q': 'grdp', 't': t})
+                for mm in r.sample(range(0, n + 2), min(1 if seq else 3, n + 2)):
+                    plan.append({'q': 'mp', 't': t, 'm': mm})
+            if (d, o, m) == DEFAULT:
+                pool = [t for t in cand + GRID if in_domain(t, 'smape')]
+                for _ in range(1 if seq else 4):
+                    k = r.randint(0, 4)
+                    lst = [r.choice(pool) for _ in range(k)] if pool else []
+                    if lst and r.random() < 0.5:
+                        lst.append(r.choice(lst))           # duplicate entry
+                    r.shuffle(lst)                          # unsorted
+                    plan.append({'q': 'min', 'ts': lst, 'm': r.randint(0, n + 1)})
+            if seq:
+                r.shuffle(plan)
+            parts.append({'points': curves[ci], 'curve': ci, 'dist': d, 'order': o, 'cost': m, 'chain': chain,
+                          'dt': dt, 'ct': ct, 'rt': rt, 'gt': gt, 'queries': plan})
+        # 2. the calls under test: ONE array object for the whole case; other curves are written into it in place
+        buf = np.array(curves[0], dtype=float)
+        cur = 0
+        for p in parts:
+            D, O, M = rdp.Distance[p['dist']], rdp.Order[p['order']], metrics.Metrics[p['cost']]
+            if p['curve'] != cur:
+                buf[:] = np.array(curves[p['curve']], dtype=float)
+                cur = p['curve']
+            for q in p['queries']:
+                if q['q'] == 'grdp':
+                    st, out = call(rdp.grdp, buf, q['t'], D, M, O)
+                elif q['q'] == 'mp':
+                    st, out = call(rdp.mp_grdp, buf, q['t'], q['m'], D, M, O)
+                else:
+                    st, out = call(rdp.min_point_rdp, buf, list(q['ts']), q['m'])
+                q['out'] = as_out(st, out)
+        c['parts'] = parts
         return c
 
-    def emit(self, c):
-        n = len(c['points'])
+    @staticmethod
+    def _emit_part(p):
+        n = len(p['points'])
         qs = []
-        for q in c['queries']:
+        for q in p['queries']:
             if q['q'] == 'grdp':
-                qs.append('QGrdp %s %s' % (fl(q['t']), cout(q['out'])))
+                qs.append('QGrdp %s %s' % (fl(q['t']), cout(q.get('out'))))
             elif q['q'] == 'mp':
-                qs.append('QMp %s %s %s' % (fl(q['t']), cnat(q['m']), cout(q['out'])))
+                qs.append('QMp %s %s %s' % (fl(q['t']), cnat(q['m']), cout(q.get('out'))))
             else:
-                qs.append('QMin %s %s %s' % (cfls(q['ts']), cnat(q['m']), cout(q['out'])))
-        gt = clist(['(%s, %s)' % (cnats(S), fl(v)) for S, v in c['gt']])
-        return 'CG %s %s %s %s %s %s %s %s %s' % (cnat(n), cbool(c['cost'] == 'r2'), CORD[c['order']], cdtab(c['dt']), cptab(c['ct']), cptab(c['rt']), gt,
-                                            clist([cnats(S) for S in c['chain']]), clist(qs))
+                qs.append('QMin %s %s %s' % (cfls(q['ts']), cnat(q['m']), cout(q.get('out'))))
+        gt = clist(['(%s, %s)' % (cnats(S), fl(v)) for S, v in p['gt']])
+        return '%s %s %s %s %s %s %s %s %s %s' % (cnat(n), cbool(p['cost'] == 'r2'), CORD[p['order']], cpts(p['points']), cdtab(p['dt']),
+                                                   cptab(p['ct']), cptab(p['rt']), gt, clist([cnats(S) for S in p['chain']]), clist(qs))
+
+    def emit(self, c):
+        if c.get('kind') == 'seq':
+            return 'CSeq %s' % clist(['PG ' + self._emit_part(p) for p in c['parts']])
+        return 'CG ' + self._emit_part(c['parts'][0])
 
     def nontrivial_key(self, c):
-        n = len(c['points'])
-        for q in c['queries']:
-            if q['q'] == 'grdp' and q['out'] is not None and 2 < len(q['out'][0]) < n:
-                return (str(c['points']), c['dist'], c['order'], c['cost'])
-        return None
+        keys = []
+        for p in c['parts']:
+            n = len(p['points'])
+            if any(q['q'] == 'grdp' and q.get('out') is not None and 2 < len(q['out'][0]) < n for q in p['queries']):
+                keys.append((str(p['points']), p['dist'], p['order'], p['cost']))
+        return (c.get('kind', 'one'), tuple(keys)) if keys else None
 
     def classify(self, c):
-        n = len(c['points'])
-        ks = [len(q['out'][0]) for q in c['queries'] if q['q'] == 'grdp' and q['out'] is not None]
-        return {'n': n if n <= 12 else (n // 8) * 8, 'family': c.get('family', '?'),
-                'config': '%s/%s/%s' % (c['cost'], c['dist'], c['order']),
+        p0 = c['parts'][0]
+        n = len(p0['points'])
+        qs = [q for p in c['parts'] for q in p['queries']]
+        ks = [len(q['out'][0]) for q in qs if q['q'] == 'grdp' and q.get('out') is not None]
+        return {'kind': c.get('kind', 'one') + ('/refill' if len(c.get('curves', [])) > 1 else ''),
+                'n': n if n <= 12 else (n // 8) * 8, 'family': c.get('family', '?'),
+                'config': ('%s/%s/%s' % (p0['cost'], p0['dist'], p0['order'])) if c.get('kind') != 'seq' else 'seq x%d' % len(c['parts']),
                 'kstar': 'first' if ks and min(ks) == 2 else ('all' if ks and min(ks) == n else ('inner' if ks else 'none')),
-                'queries': len(c['queries']), 'min_point_queries': sum(1 for q in c['queries'] if q['q'] == 'min'),
-                'exceptions': sum(1 for q in c['queries'] if q['out'] is None)}
+                'queries': len(qs), 'min_point_queries': sum(1 for q in qs if q['q'] == 'min'),
+                'exceptions': sum(1 for q in qs if q.get('out') is None)}
 
     def shrink(self, c):
         out = []
+        if c.get('kind') == 'seq':
+            base = {k: c[k] for k in ('kind', 'curves', 'steps', 'qseed', 'family')}
+            if len(c['steps']) > 1:
+                for j in range(len(c['steps'])):
+                    d = dict(base)
+                    d['steps'] = c['steps'][:j] + c['steps'][j + 1:]
+                    out.append(d)
+            n = len(c['curves'][0])
+            if n > 2:
+                for j in range(n):
+                    d = dict(base)
+                    d['curves'] = [cv[:j] + cv[j + 1:] for cv in c['curves']]
+                    out.append(d)
+            for s in range(3):
+                d = dict(base)
+                d['qseed'] = (c['qseed'] * 31 + s) % (1 << 30)
+                out.append(d)
+            return out
         pts = c['points']
         base = {k: c[k] for k in ('points', 'family', 'dist', 'order', 'cost', 'qseed')}
         if len(pts) > 2:
@@ -171,14 +246,19 @@ class C06:
         return out
 
     def sample(self, c):
-        return {'points': c['points'], 'config': [c['cost'], c['dist'], c['order']], 'chain': c['chain'],
-                'gcost': [v for _, v in c['gt']], 'queries': c['queries'][:6]}
+        return {'kind': c.get('kind', 'one'),
+                'parts': [{'points': p['points'], 'config': [p['cost'], p['dist'], p['order']], 'chain': p['chain'],
+                           'gcost': [v for _, v in p['gt']], 'queries': p['queries'][:4]} for p in c['parts'][:2]]}
 
     def describe(self, c):
-        return ('points=np.array(%s); rdp.grdp / mp_grdp(points, t, m, rdp.Distance.%s, metrics.Metrics.%s, rdp.Order.%s) and '
-                'min_point_rdp(points, ts, m) for the queries %s; chain = rdp_fixed(points, k, ...) k=2..n'
-                % (c['points'], c['dist'], c['cost'], c['order'],
-                   [{k: v for k, v in q.items() if k != 'out'} for q in c['queries']]))
+        curves, steps = self._plan(c)
+        calls = []
+        for p in c.get('parts', []):
+            for q in p['queries']:
+                calls.append(('curve %d' % p.get('curve', 0), p['cost'], p['dist'], p['order'], {k: v for k, v in q.items() if k != 'out'}))
+        return ('ONE array object buf = np.array(curves[0]), curves=%s (buf[:] = curves[i] when the curve changes); calls in this order '
+                '(grdp(buf, t, D, M, O) / mp_grdp(buf, t, m, D, M, O) / min_point_rdp(buf, ts, m)): %s; each compared with the first accepting member of '
+                'rdp_fixed(fresh copy, k, D, O), k=2..n under evaluation.compute_global_cost(fresh copy, S, M, {})' % (curves, calls))
 
 
 if __name__ == '__main__':
